@@ -89,3 +89,54 @@ pub fn session(rng: &mut Rng) -> (Vec<String>, Vec<String>) {
     }
     (f, tags)
 }
+
+/// Live data larger than one heap chunk (8192 cells): the heap has to grow, collections run over several chunks,
+/// and structures straddle the chunk boundary.  Built, churned and observed with single builtin calls (bulk
+/// allocation by vector->list / append / make-vector) so that the reference machine needs few steps.
+pub fn big_session(rng: &mut Rng) -> (Vec<String>, Vec<String>) {
+    let n = 2500 + rng.below(1500);
+    let m = 100 + rng.below(200);
+    let which = rng.below(3);
+    let churn = |k: usize| format!("(length (vector->list (make-vector {} 0)))", k);
+    let mut f: Vec<String> = vec![
+        format!("(define keep (append (vector->list (make-vector {} 1)) (vector->list (make-vector {} 2))))", n, n / 2),
+        churn(m),
+        "(apply + keep)".into(),
+    ];
+    match which {
+        0 => {
+            // an old object in the grown part mutated to refer to a young one
+            f.push(format!("(define old (list-tail keep {}))", n + 10));
+            f.push(churn(m));
+            f.push("(set-car! old (list 'young 1 2))".into());
+            f.push(churn(m * 2));
+            f.push("(car old)".into());
+            f.push("(set-car! old 5)".into());
+        }
+        1 => {
+            // a second big structure sharing the tail of the first
+            f.push(format!("(define keep2 (append (vector->list (make-vector {} 3)) keep))", 1000 + rng.below(2000)));
+            f.push(churn(m));
+            f.push("(apply + keep2)".into());
+            f.push("(set! keep (list-tail keep 50))".into());
+            f.push(churn(m * 2));
+            f.push("(apply + keep2)".into());
+            f.push("(set! keep2 '())".into());
+        }
+        _ => {
+            // a big vector whose elements are one shared young list; most of the old list dropped
+            f.push(format!("(define vv (make-vector {} '()))", 2000 + rng.below(2000)));
+            f.push("(vector-fill! vv (list 1 2 3))".into());
+            f.push(churn(m));
+            f.push("(vector-ref vv 7)".into());
+            f.push(format!("(set! keep (list-tail keep {}))", n - 20));
+            f.push(churn(m * 2));
+        }
+    }
+    for _ in 0..2 {
+        f.push(churn(m * 2));
+        f.push("(apply + keep)".into());
+    }
+    f.push("(length keep)".into());
+    (f, vec![format!("alloc-big{}", which)])
+}
